@@ -178,6 +178,9 @@ func decodeBatchRecords(batch []byte, topic string, partition int32) ([]Record, 
 	}
 
 	recordsData := batch[recordBatchHeaderLen:]
+	if int64(recordCount) > int64(len(recordsData)) {
+		return nil, fmt.Errorf("record count %d exceeds batch size", recordCount)
+	}
 	reader := bytes.NewReader(recordsData)
 	records := make([]Record, 0, recordCount)
 	for i := int32(0); i < recordCount; i++ {
@@ -195,7 +198,7 @@ func decodeRecord(reader *bytes.Reader, baseOffset int64, baseTimestamp int64, t
 	if err != nil {
 		return Record{}, err
 	}
-	if length < 0 {
+	if length < 0 || length > int64(reader.Len()) {
 		return Record{}, fmt.Errorf("invalid record length")
 	}
 
@@ -242,6 +245,9 @@ func decodeRecord(reader *bytes.Reader, baseOffset int64, baseTimestamp int64, t
 		return Record{}, err
 	}
 
+	if headerCount < 0 || headerCount > int64(buf.Len()) {
+		return Record{}, fmt.Errorf("invalid header count")
+	}
 	headers := make([]Header, 0, headerCount)
 	for i := int64(0); i < headerCount; i++ {
 		keyLen, err := readVarint(buf)
@@ -280,6 +286,9 @@ func readNullableBytes(reader *bytes.Reader, length int64) ([]byte, error) {
 	}
 	if length == 0 {
 		return []byte{}, nil
+	}
+	if length > int64(reader.Len()) {
+		return nil, io.ErrUnexpectedEOF
 	}
 	out := make([]byte, length)
 	if _, err := io.ReadFull(reader, out); err != nil {
@@ -345,6 +354,9 @@ func parseIndex(data []byte) ([]IndexEntry, error) {
 	var reserved uint16
 	if err := binary.Read(reader, binary.BigEndian, &reserved); err != nil {
 		return nil, err
+	}
+	if count < 0 || int64(count)*12 > int64(reader.Len()) {
+		return nil, fmt.Errorf("invalid index entry count %d", count)
 	}
 	entries := make([]IndexEntry, count)
 	for i := int32(0); i < count; i++ {
